@@ -42,19 +42,36 @@ func buildWriter(cfg SysCfg, db *chfake.DB) *System {
 	st.SYSTEM_SETTINGS.RetryTimeoutS = cfg.RetryTimeoutS
 	st.FingerPrintType = cfg.FPType
 	st.HTTP_SETTINGS.InputBufferMB = 200
-	node := config.ClokiBaseDataBase{Node: "n1", Name: "qryn", Host: "sim", WriteTimeout: uint32(cfg.WriteTimeoutS), ClusterName: cfg.Cluster, Primary: true}
-	st.DATABASE_DATA = []config.ClokiBaseDataBase{node}
+	var nodes []config.ClokiBaseDataBase
+	var nmap []model.DataDatabasesMap
+	var facs []ch_wrapper.IChClientFactory
+	for i, name := range NodeNames(cfg) {
+		node := config.ClokiBaseDataBase{Node: name, Name: "qryn", Host: "sim", WriteTimeout: uint32(cfg.WriteTimeoutS), ClusterName: cfg.Cluster, Primary: i == 0}
+		nodes = append(nodes, node)
+		nmap = append(nmap, model.DataDatabasesMap{ClokiBaseDataBase: node})
+		if cfg.Nodes > 1 {
+			facs = append(facs, db.FactoryFor(name))
+		} else {
+			facs = append(facs, db.Factory())
+		}
+	}
+	st.DATABASE_DATA = nodes
 	wconfig.Cloki = cc
 
-	poolSize := (cfg.ChTS*2*2+cfg.ChSample*2*11)*1 + 20
+	poolSize := (cfg.ChTS*2*2+cfg.ChSample*2*11)*len(nodes) + 20
 	service.CreateColPools(int32(poolSize))
 
 	plugin.MainNode = ""
+	for _, m := range []service.InsertSvcMap{plugin.TsSvcs, plugin.SplSvcs, plugin.MtrSvcs, plugin.TempoSamplesSvcs, plugin.TempoTagsSvcs, plugin.ProfileInsertSvcs} {
+		for k := range m {
+			delete(m, k) // the maps of a process start empty
+		}
+	}
 	p := &plugin.QrynWriterPlugin{}
 	p.ServicesObject = plugin.ServicesObject{
-		DatabaseNodeMap: []model.DataDatabasesMap{{ClokiBaseDataBase: node}},
-		Dbv3Map:         []ch_wrapper.IChClientFactory{db.Factory()},
-		MainNode:        "n1",
+		DatabaseNodeMap: nmap,
+		Dbv3Map:         facs,
+		MainNode:        nodes[0].Node,
 	}
 	p.CreateStaticServiceRegistry(*st, &impl.DevInsertServiceFactory{})
 	watchdog.Init(nil) // defuse os.Exit on long simulated outages (documented deviation)
@@ -75,6 +92,15 @@ func (s *System) Stop() {
 			svc.Stop()
 		}
 	}
+}
+
+// NodeNames are the configured ClickHouse nodes of a run: one, or two independent servers (no cluster) between which
+// a request chooses with the X-CH-DSN header.
+func NodeNames(cfg SysCfg) []string {
+	if cfg.Nodes > 1 {
+		return []string{"clickhouse-eu-1", "clickhouse-eu-2"}
+	}
+	return []string{"n1"}
 }
 
 var _ = time.Second
